@@ -19,6 +19,7 @@ REGISTRY = {
     "C02": ("c02", ["Esp.Props.C02"]),
     "C03": ("c03", ["Esp.Props.C03"]),
     "C04": ("c04", ["Esp.Props.C04"]),
+    "C10": ("c10", ["Esp.Props.C10"]),
     "C13": ("c13", ["Esp.Props.C13"]),
     "C14": ("c14", ["Esp.Props.C14Tables", "Esp.Props.C14"]),
 }
